@@ -15,6 +15,7 @@ func init() {
 }
 
 func c21(r *core.Run) {
+	c21Derived(r)
 	w := r.W
 	const T = "pkg/topology/pslice.PSlice"
 	la := core.NewLockAnalysis(w, "pkg/topology/pslice")
